@@ -663,6 +663,13 @@ class Program:
             for node in mod.tree.body:
                 if isinstance(node, (ast.FunctionDef, ast.AsyncFunctionDef, ast.ClassDef)):
                     subst(node, consts)
+            # class-level bindings recorded when the classes were loaded:  _occupation = _CLOSED_SHELL_OCCUPATION
+            for ci in self.classes.values():
+                if ci.module != mod.name:
+                    continue
+                for k_, v_ in list(getattr(ci, "class_attrs", {}).items()):
+                    if isinstance(v_, ast.Name) and v_.id in consts:
+                        ci.class_attrs[k_] = copy.deepcopy(consts[v_.id])
 
     # ------------------------------------------------------ parameter names of the pinned tree
     def _canonical_parameter_names(self):
@@ -698,6 +705,8 @@ class Program:
             mapping = {a: b for a, b in zip(cur, want) if a != b}
             if set(mapping.values()) & (set(cur) - set(mapping)):
                 continue
+            if any(a in want for a in mapping) or any(b in cur for b in mapping.values()):
+                continue          # pinned names at other positions: the parameters were re-ordered, not renamed
             used = {n.id for n in ast.walk(node) if isinstance(n, ast.Name)} | \
                 {a.arg for n in ast.walk(node) if isinstance(n, (ast.FunctionDef, ast.AsyncFunctionDef, ast.Lambda))
                  for a in n.args.posonlyargs + n.args.args + n.args.kwonlyargs}
